@@ -48,5 +48,5 @@ proof fn vacuity_pre(r: v1::Function, a: v1::Function, b: v1::Function, m: Map<u
             'R25 index loop for `for term in &mut self.terms`; `.expect("Empty Function")` treated as unwrap (panic on an unset oneof: precondition of the operators)',
         ],
         assumptions=common.A1 + ['operands of Function + / * have their oneof set (the code panics otherwise: observation outside the property)'] + common.A_COO,
-        not_covered=['the BTreeMap-merge leaves other than Linear+Linear, Linear::new, Linear*Linear, Quadratic+Linear, Quadratic+Quadratic, FromIterator for Quadratic, and the term iterators (IntoIterator for &Linear/&Quadratic/&Polynomial/&Function)', 'the size of the epsilon-drop remainder'],
+        not_covered=['the BTreeMap-merge leaves other than Linear+Linear, Linear::new, Linear*Linear, Quadratic+Linear, Quadratic+Quadratic, FromIterator for Quadratic, Polynomial+Polynomial, and the term iterators (IntoIterator for &Linear/&Quadratic/&Polynomial/&Function)', 'the size of the epsilon-drop remainder'],
     )
